@@ -1,6 +1,7 @@
 package sess
 
 import (
+	"runtime"
 	"runtime/debug"
 	"strings"
 )
@@ -93,4 +94,56 @@ func ShortStack() string {
 		}
 	}
 	return strings.Join(out, " <- ")
+}
+
+// DeepRecursion returns the repo function that occurs more than min times on
+// the current (panicking) stack, or "".
+func DeepRecursion(min int) string {
+	buf := make([]byte, 4<<20)
+	buf = buf[:runtime.Stack(buf, false)]
+	count := map[string]int{}
+	best, bestN := "", 0
+	for _, l := range strings.Split(string(buf), "\n") {
+		if strings.HasPrefix(l, "\t") || !strings.HasPrefix(l, "github.com/freeconf/yang/") || strings.Contains(l, "zzverifrt") {
+			continue
+		}
+		if j := strings.LastIndex(l, "("); j > 0 {
+			l = l[:j]
+		}
+		l = strings.TrimPrefix(l, "github.com/freeconf/yang/")
+		count[l]++
+		if count[l] > bestN || (count[l] == bestN && l < best) {
+			best, bestN = l, count[l]
+		}
+	}
+	// the runtime prints only the innermost and outermost 50 frames of a deep
+	// stack; a function that keeps recurring in that window of an elided trace
+	// is an unbounded recursion
+	if bestN > min && strings.Contains(string(buf), "frames elided") {
+		return best
+	}
+	return ""
+}
+
+// RepoFrames lists the repo functions on the current (panicking) stack,
+// innermost first.
+func RepoFrames() []string {
+	buf := make([]byte, 1<<20)
+	buf = buf[:runtime.Stack(buf, false)]
+	var out []string
+	seenPanic := false
+	for _, l := range strings.Split(string(buf), "\n") {
+		if strings.HasPrefix(l, "panic(") {
+			seenPanic = true
+			continue
+		}
+		if !seenPanic || strings.HasPrefix(l, "\t") || !strings.HasPrefix(l, "github.com/freeconf/yang/") || strings.Contains(l, "zzverifrt") {
+			continue
+		}
+		if j := strings.LastIndex(l, "("); j > 0 {
+			l = l[:j]
+		}
+		out = append(out, strings.TrimPrefix(l, "github.com/freeconf/yang/"))
+	}
+	return out
 }
